@@ -606,6 +606,23 @@ pub fn generate_with(seed: u64, with_std: bool) -> Project {
         }
     }
 
+    // ---- the same global imported a second time under another name (allowed: "importing the same thing twice")
+    for f in 0..modules.len() {
+        if !r.chance(1, 8) {
+            continue;
+        }
+        let again: Option<(usize, String, String)> = modules[f].imports.iter().find_map(|i| match &i.kind {
+            ImportKind::From { items, .. } => items.iter().find(|(n, _)| !n.starts_with('B') && !n.starts_with('E')).map(|(n, _)| (i.target, i.spec.clone(), n.clone())),
+            _ => None,
+        });
+        if let Some((t, spec, name)) = again {
+            alias_counter += 1;
+            let alias = format!("zq{}", alias_counter);
+            modules[f].imports.push(Import { target: t, spec, kind: ImportKind::From { items: vec![(name, Some(alias))], paren: false } });
+            features.insert("same_global_imported_twice_under_two_names");
+        }
+    }
+
     // ---- initialisers that copy another module's global, along the module order (no dependency cycle)
     for f in 0..modules.len() {
         if !r.chance(1, 4) {
